@@ -28,6 +28,19 @@ LexLess(a, b) == IF a = <<>> THEN b # <<>>
 KeysAscending(its) == \A i \in 1..(Len(its) \div 2 - 1) : LexLess(its[2*i-1].v, its[2*i+1].v)
 
 
+\* does the integer [neg, d] fit a signed 64-bit value?  (digit-sequence comparison, no TLC arithmetic)
+I64MaxDigits == <<"9","2","2","3","3","7","2","0","3","6","8","5","4","7","7","5","8","0","7">>
+I64MinDigits == <<"9","2","2","3","3","7","2","0","3","6","8","5","4","7","7","5","8","0","8">>
+RECURSIVE DigLeq(_, _)
+DigLeq(a, b) == IF a = <<>> THEN TRUE                      \* same length assumed
+                ELSE IF DV[Head(a)] # DV[Head(b)] THEN DV[Head(a)] < DV[Head(b)]
+                ELSE DigLeq(Tail(a), Tail(b))
+FitsI64(neg, d) == Len(d) < 19 \/ (Len(d) = 19 /\ DigLeq(d, IF neg THEN I64MinDigits ELSE I64MaxDigits))
+RECURSIVE AllFit(_)
+AllFit(v) == CASE v.t = "i" -> FitsI64(v.neg, v.d)
+               [] v.t = "s" -> TRUE
+               [] OTHER -> \A i \in 1..Len(v.v) : AllFit(v.v[i])
+
 RECURSIVE NatDigits(_)
 NatDigits(n) == IF n < 10 THEN << CHOOSE c \in Digits : DV[c] = n >>
                 ELSE Append(NatDigits(n \div 10), CHOOSE c \in Digits : DV[c] = n % 10)
